@@ -334,6 +334,23 @@ def c03(rep, tier):
         ok = ok and (is_call(fg_o, 'GenState::getSymbols') or is_call(fg_root, 'GenState::getSymbols'))
         D.check(ok, 'popSymbols: Prog.stack_size', '= register_state.size() of the routine being finished',
                 'frame size is %s' % show(pf.get('stack_size')), W(m, pop, prog_inits[0]))
+        # ... and it is read after the last allocation: when the size comes from a by-value snapshot of the symbol table,
+        # the snapshot must be taken after every allocator call of this function
+        if ok:
+            snap_ev = None
+            if fg_root is not None and strip_casts(fg_root).get('k') == 'ref' and strip_casts(fg_root).get('dk') == 'var':
+                for st in walk_stmts(pop['body']):
+                    if st['k'] == 'decl':
+                        for v in st['vars']:
+                            if v['d'] == strip_casts(fg_root)['d'] and not v.get('is_ref') and v.get('init') is not None:
+                                snap_ev = gp.ev(strip_copies(strip_casts(v['init']))) if strip_copies(strip_casts(v['init'])).get('sid') in gp.by_sid else None
+            read_ev = snap_ev or gp.ev(prog_inits[0])
+            allocs = [ev for ev in gp.calls() if m.callee(ev.e) in ('FunctionGenState::fetchTemporary', 'FunctionGenState::fetchVariableRegister') or
+                      (m.callee(ev.e).split('::')[-1] in ('push_back', 'emplace_back') and ev.e.get('obj') is not None and field_chain(ev.e['obj'])[1][-1:] == ['register_state'])]
+            late = [a for a in allocs if gp.can_follow(read_ev, a)]
+            D.check(not late, 'popSymbols: frame size read after the last allocation', 'no allocator call can follow the point where the register file is read%s' % (' (by-value snapshot)' if snap_ev else ''),
+                    'a register is allocated (%s) after the symbol table was snapshotted: the recorded frame size and the stack map miss it, so PREPARE creates a frame that is too small'
+                    % (show(late[0].e)[:60] if late else ''), W(m, pop, late[0].e if late else prog_inits[0]))
 
     # ---------------------------------------------------------------- e: one register per parameter
     E = rep.rule('C03.e', 'every counted parameter owns a register: each increment of argnum is paired with an '
@@ -1057,8 +1074,10 @@ def loop_rules(R, m, rep):
             'variable name contains a character no identifier can contain (%s)' % [s for s in lits][:2],
             'the counter register is %s: a user variable could alias it' % show(co), W(m, dl, co if co else dl))
     incs = [ev for ev in g.events if ev.e.get('k') == 'un' and ev.e['op'] == '++' and field_chain(ev.e['e'])[1][-1:] == ['loops']]
-    R.check(uses_loops and len(incs) == 1 and g.on_all_paths(incs[0]), 'dispatchLoop: unique counter',
-            'name includes gs.loops, incremented once per lowering', 'counter name is not unique per loop (nested loops would share it)', W(m, dl))
+    R.check(uses_loops and len(incs) == 1 and g.on_all_paths(incs[0]) and g.dominates(incs[0], body), 'dispatchLoop: unique counter',
+            'name includes gs.loops, which is incremented once per lowering before the body (and thus before any nested loop) is lowered',
+            'counter name is not unique per loop: %s' % ('gs.loops is incremented only after the body was lowered, so a nested loop on the same line gets the same counter register'
+                                                        if uses_loops and len(incs) == 1 and not g.dominates(incs[0], body) else 'nested loops would share it'), W(m, dl))
     # order
     sl = g.calls_to('GenState::setLabel')
     start_l = strip_casts(jm.e['args'][0])
